@@ -101,4 +101,21 @@ def run (cycles : Nat) (c : Core) : Except Stop Core := (ops runFixed).run cycle
 /-- `cycles` single steps: what `Run(1)` repeated does. -/
 def steps (cycles : Nat) (c : Core) : Except Stop Core := (ops runFixed).cyclesN cycles { c with idle := false }
 
+/-! ## `Teakra::Reset` and construction -/
+
+/-- A freshly constructed `Teakra` whose host-owned parts (external memory behind the AHBM callbacks,
+accumulated logs) are those of `c`.  Every other member has an initialiser in the C++ (checked by the
+member table of `checks/c17.py`), so the fresh machine has no further parameter. -/
+def freshLike (c : Core) : Core := { bus := { ext := c.bus.ext }, log := c.log, events := c.events }
+
+/-- `Teakra::Reset`: `Impl::Reset` of the bus, `Processor::Reset` (a value-initialised register file, cleared
+interrupt latches and idle flag). -/
+def reset (c : Core) : Core :=
+  { regs := {}, bus := c.bus.reset, log := c.log, events := c.events,
+    ipend := Vector.replicate 3 false, vpend := false, vctx := false, vaddr := 0, idle := false }
+
+/-- The pinned upstream `Teakra::Reset`: `Processor::Reset` only replaced the register file, `Impl::Reset` skipped
+the ICU, the MMIO storage words and the mailbox interrupt-disable flags. -/
+def resetUpstream (c : Core) : Core := { c with regs := {}, bus := c.bus.resetUpstream }
+
 end Teakra.Sys
